@@ -297,6 +297,36 @@ var c19RTPictures = []struct {
 	{"[Y0001]-[M01]-[D01] [H01]:[m01]:[s01] [f001] [Z01:01]", 1, false},
 	{"[f001] ms past [H01]:[m01]:[s01] on [Y0001]-[M01]-[D01]", 1, true},
 	{"[Y0001]-[M01]-[D01]T[H01]:[m01]:[s01],[f001]", 1, true},
+	// literal text that Go's time layouts read as a field (a digit, a month or day
+	// name, PM, MST), and a number directly after "[s01]." (read as a fraction)
+	{"[Y0001]-[M01]-[D01] v2", 86400000, true},
+	{"[Y0001]-[M01]-[D01] at 3", 86400000, true},
+	{"[H01]:[m01] PM on [D01]/[M01]/[Y0001]", 60000, true},
+	{"Jan [D01] [M01] [Y0001]", 86400000, true},
+	{"[H01]:[m01]:[s01].[D01].[M01].[Y0001]", 1000, true},
+}
+
+// literalReadsAsLayout: the picture's literal text contains something that is a
+// field in Go's time layouts
+func literalReadsAsLayout(pic string) bool {
+	var lit strings.Builder
+	depth := 0
+	for _, r := range pic {
+		switch {
+		case r == '[':
+			depth++
+		case r == ']':
+			depth--
+		case depth == 0:
+			lit.WriteRune(r)
+		}
+	}
+	for _, tok := range []string{"1", "2", "3", "4", "5", "6", "7", "PM", "pm", "Jan", "Mon", "MST"} {
+		if strings.Contains(lit.String(), tok) {
+			return true
+		}
+	}
+	return false
 }
 
 // fractionDetached: the picture has [f001] that is not directly preceded by '.' or ','
@@ -329,8 +359,13 @@ func c19Misc(r *fw.Rec, rr *prng.R) {
 		r.Outcome(o.Class())
 		if f, ok := obs.Normalize(o.Val, nil).(float64); o.Kind != "value" || !ok || int64(f) != ms {
 			sig := "roundtrip-picture"
-			if fractionDetached(p.Pic) && o.Kind == "error" {
-				sig += ":fraction-component-not-after-dot-or-comma"
+			switch {
+			case fractionDetached(p.Pic) && o.Kind == "error":
+				sig += ":go-layout:fraction-component-not-after-dot-or-comma"
+			case strings.Contains(p.Pic, "[s01].[D01]") && o.Kind == "error":
+				sig += ":go-layout:number-after-seconds-and-dot-read-as-fraction"
+			case literalReadsAsLayout(p.Pic):
+				sig += ":go-layout:literal-text-read-as-layout-field"
 			}
 			r.Violation(sig, fmt.Sprintf("%s with %s gave %s, want %d", prog, docJSON, o.String(), ms), nil)
 			return
@@ -427,7 +462,7 @@ func init() {
 	fw.Register(&fw.Prop{
 		ID: "C19", Title: "$fromMillis renders the right calendar fields and $toMillis inverts it",
 		Rule: fmt.Sprintf("cases: (a) days from 1000-01-01 to 9999-12-31 (thorough: every one of the %d days at 3 PRNG-chosen times of day; quick: every 97th day plus all month/year boundaries of 400 years, each hour of the day and the boundary milliseconds 00:00:00.000 / 23:59:59.999) with a PRNG-chosen offset from -1400 to +1400 in 15-minute steps: one evaluation renders %d components (Y M D d F W H h P m s f Z z with width, name and ordinal modifiers) and the default picture, and round-trips through $toMillis with the default and with a full custom picture; ", dayN-day0+1, len(c19Components)) +
-			"(b) PRNG-generated instants for 10 round-trip pictures built from [Y0001] [M01] [D01] [H01] [m01] [s01] [f001] [Z01:01] on the instants each can represent; (c) 26 unparsable texts, invalid pictures and invalid time zones, plus generated offsets with a minute field of 60..99, that must be errors; (d) $millis()/$now() constancy within one evaluation and inside the wall-clock bracket around Eval. " +
+			"(b) PRNG-generated instants for 15 round-trip pictures built from [Y0001] [M01] [D01] [H01] [m01] [s01] [f001] [Z01:01] on the instants each can represent; (c) 26 unparsable texts, invalid pictures and invalid time zones, plus generated offsets with a minute field of 60..99, that must be errors; (d) $millis()/$now() constancy within one evaluation and inside the wall-clock bracket around Eval. " +
 			"Oracle: independent proleptic-Gregorian arithmetic (days-from-civil, ISO-8601 week rule), cross-checked against Go's time package on 10 000 instants at start-up. non-trivial = every case; distinct by (instant, offset)",
 		Assumptions: []string{"roman/word presentations, [w], numeric [F1], bare [f], [ZN], [C], [E] are not checked (the statement lists width, name and ordinal modifiers only)", "the wall clock is read only for the $now bracket, where it is the subject of the property"},
 		Plan: func(tier string, seed uint64) *fw.Plan {
